@@ -909,9 +909,77 @@ theorem rstep_invP (hI : Inv s) (hB : InvHB s) (hi : InvP s) (h : rstep s s.cfg.
   | rmUnlock d => exact pr_rmUnlock d hpc hi h
   | _ => simp [rstep, hpc] at h
 
+/-- the interrupted futex wait (EINTR) preserves blocked-implies-reason: a reader that leaves the
+futex re-loads `write_cursor`; a writer that leaves it retries the lock (it is `lockActive`, so every
+writer still parked keeps its reason) -/
+theorem spur_invP {s : St} {t : Nat} {q : Pc} (hle : t ≤ s.cfg.W) (hi : InvP s)
+    (hq : (∃ rpos, s.pc t = .rBlocked rpos ∧ q = .rLdW rpos) ∨ (s.pc t = .wBlocked ∧ q = .wLock)) :
+    InvP { s with pc := upd s.pc t q } := by
+  obtain ⟨k1, k2, k3, k4, k5, k6, k7, k8, k9, k10⟩ := hi
+  rcases hq with ⟨rpos, hp, rfl⟩ | ⟨hp, rfl⟩
+  · -- the reader
+    have hW : t = s.cfg.W := by
+      apply Classical.byContradiction; intro hne
+      have := k1 t (by omega); rw [hp] at this; simp [isWPc] at this
+    subst hW
+    have hw : ∀ u, u < s.cfg.W → upd s.pc s.cfg.W (Pc.rLdW rpos) u = s.pc u :=
+      fun u hu => upd_other _ _ _ _ (Nat.ne_of_lt hu)
+    have hex : ∀ P : Pc → Bool, Ex P (upd s.pc s.cfg.W (Pc.rLdW rpos)) s.cfg.W ↔ Ex P s.pc s.cfg.W := by
+      intro P
+      constructor
+      · rintro ⟨u, hu, h⟩; exact ⟨u, hu, by rw [hw u hu] at h; exact h⟩
+      · rintro ⟨u, hu, h⟩; exact ⟨u, hu, by rw [hw u hu]; exact h⟩
+    refine ⟨?_, ?_, ?_, ?_, k5, ?_, ?_, ?_, ?_, ?_⟩
+    · intro u hu; simp only [hw u hu]; exact k1 u hu
+    · simp [isRPc]
+    · intro u e hu h; simp only [hw u hu] at h; exact k3 u e hu h
+    · intro u hu h; simp only [hw u hu] at h; exact k4 u hu h
+    · intro h; simp only [hex] at h ⊢; exact k6 h
+    · intro a b h; simp at h
+    · intro a h; simp at h
+    · intro h; simp at h
+    · intro h; simp at h
+  · -- a writer
+    have hlt : t < s.cfg.W := by
+      apply Classical.byContradiction; intro hne
+      have hW : t = s.cfg.W := by omega
+      subst hW
+      have := k2; rw [hp] at this; simp [isRPc] at this
+    have hR : upd s.pc t Pc.wLock s.cfg.W = s.pc s.cfg.W := upd_W hlt
+    have hsync := k4 t hlt hp
+    have hpub : Ex published s.pc s.cfg.W → Ex published (upd s.pc t Pc.wLock) s.cfg.W :=
+      fun h => Ex.keep h (by rw [hp]; simp [published])
+    refine ⟨?_, ?_, ?_, ?_, k5, ?_, ?_, ?_, ?_, ?_⟩
+    · intro u hu
+      by_cases hut : u = t
+      · subst hut; simp [isWPc]
+      · simp only [upd_other _ _ _ _ hut]; exact k1 u hu
+    · simp only [hR]; exact k2
+    · intro u e hu h
+      by_cases hut : u = t
+      · subst hut; simp at h
+      · simp only [upd_other _ _ _ _ hut] at h; exact k3 u e hu h
+    · intro u hu h
+      by_cases hut : u = t
+      · subst hut; simp at h
+      · simp only [upd_other _ _ _ _ hut] at h; exact k4 u hu h
+    · intro _; exact Or.inr (Ex.new hlt (by simp [lockActive]))
+    · intro a b h; simp only [hR] at h; exact k7 a b h
+    · intro a h
+      simp only [hR] at h
+      obtain ⟨h1, h2⟩ := k8 a h
+      exact ⟨h1, h2.imp id hpub⟩
+    · intro h; simp only [hR] at h; exact k9 h
+    · intro h
+      simp only [hR] at h
+      obtain ⟨h1, h2⟩ := k10 h
+      exact ⟨h1, h2.imp id hpub⟩
+
 theorem step_invP {s s' : St} {tok : Tok} {ev : List String} (hI : Inv s) (hB : InvHB s) (hi : InvP s)
     (h : step s tok = some (s', ev)) : InvP s' := by
-  unfold step at h
+  rcases step_cases h with ⟨hle, q, rfl, hq⟩ | h
+  · exact spur_invP hle hi hq
+  unfold stepMain at h
   split at h
   · cases h
   next hen =>
